@@ -9,6 +9,7 @@ from ..viol import Violation, require
 ID = 'C13'
 LEVEL = 'exploration'
 RULE = (
+    'Both functions with both directions of the renaming run on one manager (complete part); in the random part the other function is called with the very same arguments, then the first one again. '
     'S: image / preimage with dynamic reordering enabled, the trigger at every position (as in C09); qvars given as set, list, iterator or generator. '
     'E: one pair (x, xp) without and with one free variable y: every (trans, '
     'set) pair of functions for 2 variables (256) and all (thorough; quick: '
